@@ -489,6 +489,32 @@ def conservation_search(ctx, shim, r, per_script, scripts=None):
                          "additions/removals); non-trivial = more than one character")
 
 
+RECOMPOSED_CLASS = "variation-sequence-recomposed"
+
+
+def recomposed_witness(ctx, shim):
+    """Permanent witness of the finding `variation-sequence-recomposed`: Greek <U+1F40 U+FE00 U+0301>, native
+    direction, PRESERVE_DEFAULT_IGNORABLES, on a font with a variation-sequence glyph for (U+1F40, U+FE00) and a glyph
+    for U+1F44: the pair becomes the sequence glyph, the recomposition round then composes U+1F40 + U+0301 and puts
+    the nominal glyph of U+1F44 there; U+FE00 and the variation are gone.  Replayed on every run once the finding is
+    registered in known_findings.json (until then the random search reports it when it meets it)."""
+    import json
+    if not any(k.get("property") == "C08" and RECOMPOSED_CLASS in json.dumps(k.get("signature", {})) for k in ctx.kf):
+        return
+    rec, cmap, inv, _ = make_font("greek", False, True, True, [0x1F40])
+    text = [0x1F40, 0xFE00, 0x0301]
+    grp = [f"font W {fontbuild.hexfont(rec)}", "shape W l - - 4 0 - - - " + ",".join(f"{c:x}:{i}" for i, c in enumerate(text))]
+    o = vlib.run_groups(shim, [grp], nproc=1)[0]
+    out = parse_shape(o[1])
+    d = check_case(text, out, inv, 4, False, False) if out is not None else {"kind": "no output"}
+    if d:
+        cls = "other:" + (RECOMPOSED_CLASS if d.get("sequence_base_recomposed") else "character-vanished" if d.get("vanished") else "native-direction")
+        ctx.violation(f"greek: {d['kind']} ({' '.join(f'{c:04X}' for c in text)})",
+                      {"stage": "search", "stream": "conservation", "script": "greek", "font_line": grp[0], "class": cls,
+                       "kind": d["kind"], "request": grp[1], "text": [f"{c:04X}" for c in text], "flags": 4,
+                       "deviation": d, "observed": o[1], "witness": True})
+
+
 def thai_stream(ctx, r, n):
     """Thai / Lao preprocessing: hook vs Lean model on strings dense in SARA AM and above-base marks"""
     groups = []
@@ -534,6 +560,7 @@ def run(ctx):
     sel_lines = [ln for ln in C09.gen_run_lines(ctx.rng("norm-selectors"), ctx.budget(8000, 150000), U9)
                  if any(c in U9.vs for c, _, _ in C09.parse_text_tok(ln.split()[9]))]
     ctx.correspond("norm-run-selectors", lines=sel_lines, classify=C09.classify_run)
+    recomposed_witness(ctx, shim)
     conservation_search(ctx, shim, ctx.rng("conservation"), ctx.budget(400, 12000))
 
 
